@@ -4,6 +4,7 @@ import (
 	"fmt"
 	"go/token"
 	"go/types"
+	"sort"
 	"strings"
 
 	"golang.org/x/tools/go/ssa"
@@ -21,13 +22,44 @@ func init() {
 
 // footprintRule: the stride-stepped loops of each target touch exactly the coordinates [first, last] of their range.
 func footprintRule(p *core.Program, r *core.Report, rule string, targets [][2]string) {
-	r.Rule(rule, "for each kernel loop `for i := init; i < bound; i += stride` over a flat array, with init = base + a*stride, bound = end + b*stride and index offsets q*stride (+0/1): a + min q = 0 (the first coordinate of the range is touched) and b + max q = 0 for `<` (-1 for `<=`) (the last coordinate is touched, none beyond): no segment is dropped, doubled or read past the range", len(targets))
+	footprintRuleN(p, r, rule, targets, len(targets))
+}
+
+// footprintRuleN: a target {rel, "file:<name.go>"} stands for every function of that file containing a
+// stride-stepped loop over a flat array.
+func footprintRuleN(p *core.Program, r *core.Report, rule string, targets [][2]string, floor int) {
+	r.Rule(rule, "for each kernel loop `for i := init; i < bound; i += stride` over a flat array, with init = base + a*stride, bound = end + b*stride and index offsets q*stride (+0/1): a + min q = 0 (the first coordinate of the range is touched) and b + max q = 0 for `<` (-1 for `<=`) (the last coordinate is touched, none beyond): no segment is dropped, doubled or read past the range", floor)
 	all := strideInfo(p)
+	type tf struct {
+		fn       *ssa.Function
+		explicit bool
+	}
+	var tfs []tf
 	for _, t := range targets {
-		fn := mustFn(p, r, rule, t[0], t[1])
-		if fn == nil {
+		if strings.HasPrefix(t[1], "file:") {
+			var l []*ssa.Function
+			for fn, si := range all {
+				if fn.Parent() == nil && inFile(p, fn, t[0], strings.TrimPrefix(t[1], "file:")) && len(si.LoopFootprints()) > 0 {
+					l = append(l, fn)
+				}
+			}
+			sort.Slice(l, func(i, j int) bool { return l[i].String() < l[j].String() })
+			for _, fn := range l {
+				tfs = append(tfs, tf{fn, false})
+			}
 			continue
 		}
+		if fn := mustFn(p, r, rule, t[0], t[1]); fn != nil {
+			tfs = append(tfs, tf{fn, true})
+		}
+	}
+	seenT := map[*ssa.Function]bool{}
+	for _, t := range tfs {
+		fn := t.fn
+		if seenT[fn] {
+			continue
+		}
+		seenT[fn] = true
 		si := all[fn]
 		fps := si.LoopFootprints()
 		key := short(fn)
@@ -57,6 +89,7 @@ func c11(p *core.Program, r *core.Report) {
 	footprintRule(p, r, "segment-coverage", [][2]string{{"xy/internal/raycrossing", "LocatePointInRing"}, {"xy", "IsOnLine"}})
 
 	crossingConventionRule(p, r, "crossing-convention")
+	planarLayoutArgsRule(p, r, "planar-layout-arguments")
 	const r3 = "location-values"
 	r.Rule(r3, "getLocation returns only the constants Interior, Boundary, Exterior (Boundary exactly when isPointOnSegment); raycrossing.LocatePointInRing returns only getLocation(); xy.LocatePointInRing is a pure delegation; xy.IsPointInRing is `LocatePointInRing(...) != location.Exterior`", 4)
 	locPkg := p.Pkg("xy/location")
@@ -380,56 +413,22 @@ func c13(p *core.Program, r *core.Report) {
 }
 
 func c14(p *core.Program, r *core.Report) {
-	strideRule(p, r, "stride-discipline", []strideTarget{
-		{"xy", "(*AreaCentroidCalculator).addShell", "xy"},
-		{"xy", "(*AreaCentroidCalculator).addHole", "xy"},
-		{"xy", "(*AreaCentroidCalculator).addLinearSegments", "xy"},
-		{"xy", "(*AreaCentroidCalculator).addTriangle", "xy"},
-		{"xy", "(*AreaCentroidCalculator).GetCentroid", "xy"},
-		{"xy", "centroid3", "xy"},
-		{"xy", "area2", "xy"},
-		{"xy", "(*LineCentroidCalculator).addLine", "xy"},
-		{"xy", "(*LineCentroidCalculator).GetCentroid", "xy"},
+	// whole files, so that renaming, merging or splitting the helpers keeps them covered
+	strideRuleN(p, r, "stride-discipline", []strideTarget{
+		{"xy", "file:area_centroid.go", "xy"},
+		{"xy", "file:line_centroid.go", "xy"},
+		{"xy", "file:point_centroid.go", "xy"},
 		{"xy", "MultiPointCentroid", "all"},
-		{"xy", "PointsCentroidFlat", "xy"},
-		{"xy", "(*PointCentroidCalculator).AddCoord", "xy"},
-		{"xy", "(*PointCentroidCalculator).GetCentroid", "xy"},
 		{"xy", "SignedArea", "xy"},
 		{"xy", "IsRingCounterClockwise", "xy"},
-	})
-	footprintRule(p, r, "segment-coverage", [][2]string{
-		{"xy", "(*AreaCentroidCalculator).addShell"}, {"xy", "(*AreaCentroidCalculator).addHole"},
-		{"xy", "(*AreaCentroidCalculator).addLinearSegments"}, {"xy", "(*LineCentroidCalculator).addLine"},
-		{"xy", "SignedArea"}, {"xy", "MultiPointCentroid"}, {"xy", "PointsCentroidFlat"},
-	})
+	}, 12)
+	footprintRuleN(p, r, "segment-coverage", [][2]string{
+		{"xy", "file:area_centroid.go"}, {"xy", "file:line_centroid.go"}, {"xy", "file:point_centroid.go"},
+		{"xy", "SignedArea"},
+	}, 6)
 
 	zeroAreaFallbackRule(p, r, "zero-area-fallback-exact")
-	const r3 = "shell-hole-polarity"
-	r.Rule(r3, "addShell and addHole pass logically opposite values of the same predicate IsRingCounterClockwise(calc.layout, pts) to addTriangle (shell: negated, hole: plain), so holes subtract what shells add whatever the ring directions", 2)
-	pol := func(name string) (neg bool, ok bool) {
-		fn := mustFn(p, r, r3, "xy", "(*AreaCentroidCalculator)."+name)
-		if fn == nil {
-			return false, false
-		}
-		for _, c := range eng.Calls(fn) {
-			if callee := c.Common().StaticCallee(); callee != nil && callee.Name() == "addTriangle" {
-				v := c.Common().Args[len(c.Common().Args)-1]
-				neg := false
-				if u, isU := v.(*ssa.UnOp); isU && u.Op == token.NOT {
-					neg, v = true, u.X
-				}
-				call, isCall := v.(*ssa.Call)
-				if isCall && call.Call.StaticCallee() != nil && call.Call.StaticCallee().Name() == "IsRingCounterClockwise" && call.Call.Args[1] == ssa.Value(fn.Params[1]) {
-					return neg, true
-				}
-			}
-		}
-		return false, false
-	}
-	sn, sok := pol("addShell")
-	hn, hok := pol("addHole")
-	r.Check(sok && sn, r3, "xy.(*AreaCentroidCalculator).addShell", "xy/area_centroid.go", true, "shell passes !IsRingCounterClockwise(pts)", "addShell does not pass the negated ring-direction predicate of its own ring")
-	r.Check(hok && !hn, r3, "xy.(*AreaCentroidCalculator).addHole", "xy/area_centroid.go", true, "hole passes IsRingCounterClockwise(pts)", "addHole does not pass the plain ring-direction predicate of its own ring (same polarity as the shell: holes would add instead of subtract)")
+	ringSignRule(p, r, "shell-hole-polarity")
 	r.Assume("every numerical statement (weighted means, fall-back to the linear centroid, sign of the area) is not decided")
 }
 
@@ -540,5 +539,6 @@ func c20(p *core.Program, r *core.Report) {
 	strideRule(p, r, "stride-discipline", []strideTarget{{"xy", "dpWorker", "all"}, {"xy", "distanceFromSegmentSquared", "xy"}, {"xy", "SimplifyFlatCoords", "all"}})
 	clampedProjectionRule(p, r, "segment-distance-clamped", [][2]string{{"xy", "distanceFromSegmentSquared"}})
 	rdpScanRule(p, r, "candidate-scan-exhaustive")
+	rdpSingleDecisionRule(p, r, "single-decision-point")
 	r.Assume("the threshold bound on omitted points and idempotence depend on runtime numbers and are not decided beyond the clamp structure of the distance kernel")
 }
